@@ -383,6 +383,52 @@ func gen(seed uint64, tier string) {
 		fmt.Fprintf(out, "h %s %s | %s\n", []string{"0", "m", "e"}[r.Intn(3)], strings.Join(ks[:nk], " "), objsTok(objs))
 		fmt.Fprintf(out, "c %d %s | %s\n", 1+r.Intn(4), ks[r.Intn(len(ks))], objsTok(objs))
 	}
+	// PBF rendering of the document (hand-written encoder, 4 layouts), the other entry points (ExtractFile,
+	// ExtractTag, CountTags over the file) and the observers of the result (stored objects, Geom, CountTags)
+	pbfCorpus := []string{
+		"n1:1,1:1=1 n2:5,5:- w1:1,2:1=1;2=1 r1:w1,n2:1=2 w2:1,2,1:- r2:r1,r2:-",
+		// closed ways, a one-node way (closed by definition), relation of closed ways (polygon), of open ways, of nodes, mixed
+		"n1:0,0:- n2:2,0:- n3:2,2:- n4:0,2:1=1 w1:1,2,3,4,1:1=1 w2:1:1=1 w3:1,2:1=1 r1:w1:1=1 r2:w3:1=1 r3:n1,n2:1=1 r4:w1,n1,r1:1=1 r5:-:1=1",
+		// a way without node ids: stored, no Geom item, CountTags panics (modelled)
+		"n1:1,1:1=1 w1:-:1=1 w2:1:-",
+		"n1:1,1:- w1:-:- r1:w1:1=1",
+		// the same key with several values on one object, and on objects of all kinds
+		"n1:1,1:1=1;1=2;2=1 w1:1,1:1=1;1=1 r1:n1:1=2;2=1 n2:3,3:2=2",
+		// relation cycle: no root among the relations
+		"r1:r2:1=1 r2:r1:- n1:1,1:-",
+		// negative and zero coordinates
+		"n1:-3,-2:1=1 n2:0,0:1=1 n3:-1,4:- w1:1,2,3:1=1",
+	}
+	pk := 0
+	for _, c := range append(append([]string{}, pbfCorpus...), corpus...) {
+		for _, k := range []string{"all", "bounds:0,0,2,2", "tags:1=1", "tags:1="} {
+			fmt.Fprintf(out, "p %d %s | %s\n", pk%4, k, c)
+			pk++
+		}
+	}
+	for _, c := range danglingCorpus {
+		fmt.Fprintf(out, "p %d all | %s\n", pk%4, c)
+		fmt.Fprintf(out, "p %d tags:1=1 | %s\n", (pk+1)%4, c)
+		pk++
+	}
+	npbf := ndocs / 2
+	for i := 0; i < npbf; i++ {
+		if i%5 == 4 {
+			g.lo, g.hi = -3, 2
+		} else {
+			g.lo, g.hi = 0, 4
+		}
+		objs := g.doc(5+r.Intn(40), i%6 == 5)
+		if i%4 == 1 { // more tags: CountTags tables with several rows and ties in the totals
+			for j := range objs {
+				if objs[j].kind != 'B' && r.Chance(0.5) {
+					objs[j].tags = append(objs[j].tags, [2]int{1 + r.Intn(3), 1 + r.Intn(3)})
+				}
+			}
+		}
+		k := []string{g.boundsTok(), tagKeeps[r.Intn(len(tagKeeps))], "all", "tags:" + fmt.Sprint(1+r.Intn(2)) + "="}[r.Intn(4)]
+		fmt.Fprintf(out, "p %d %s | %s\n", r.Intn(4), k, objsTok(objs))
+	}
 	for i := 0; i < ndang; i++ {
 		objs := g.doc(5+r.Intn(30), true)
 		for _, k := range []string{g.boundsTok(), tagKeeps[r.Intn(len(tagKeeps))], "all"} {
